@@ -274,7 +274,10 @@ def run_check(args, root):
         if res.get('error'):
             agg['errors'].append((task.get('name'), res['error']))
         for v in res.get('violations') or []:
-            if not core.match_known(v, known):
+            k = core.match_known(v, known)
+            if k:
+                known_keys_seen.setdefault(k['key'], (k, v, res))
+            else:
                 reg_bad.append((task, v))
     agg['extra']['regression_replays'] = len(reg_results)
     if agg['errors']:
